@@ -441,6 +441,95 @@ func runC03(cfg *vh.Config) error {
 		em.caseNo++
 	}
 
+	// ---- stream 5b (pinned): query values with surrounding white space.  A scalar / enum parameter is the
+	// field's text verbatim: it decodes exactly like the same text written as a JSON string (strings and keys
+	// keep the white space; numbers, bools, dates, timestamps, enums ... are rejected); only container-valued
+	// parameters are trimmed.  Every root scalar kind, scalar arrays and nested a.b paths.
+	{
+		spaced := []func(string) string{
+			func(s string) string { return " " + s }, func(s string) string { return s + " " },
+			func(s string) string { return "\t" + s + "\n" }, func(string) string { return "   " },
+			func(s string) string { return "\u00a0" + s }, func(s string) string { return s + "\u2003" },
+			func(s string) string { return "\r\n" + s + " " },
+		}
+		k := 0
+		for _, t := range []*target{byName["env_full"], byName["env_wide"]} {
+			root := t.Env.Lookup(t.Env.Root)
+			if root == nil || root.Class != "object" {
+				continue
+			}
+			g := codecgen.NewGen(r, t.Env)
+			g.Canonical = true
+			type qparam struct {
+				key  string
+				ty   *codecgen.Ty
+				wrap func(*codecgen.J) *codecgen.J
+			}
+			var params []qparam
+			for _, p := range root.Props {
+				if len(p.Path) == 0 {
+					continue
+				}
+				name := p.JSON
+				switch {
+				case p.Ty.Class == "scalar" || p.Ty.Class == "enum":
+					params = append(params, qparam{name, p.Ty, func(v *codecgen.J) *codecgen.J { return codecgen.Obj().Add(name, v) }})
+				case p.Ty.Class == "array" && (p.Ty.Item.Class == "scalar" || p.Ty.Item.Class == "enum"):
+					params = append(params, qparam{name, p.Ty.Item, func(v *codecgen.J) *codecgen.J { return codecgen.Obj().Add(name, codecgen.Arr(v)) }})
+				case p.Ty.Class == "object":
+					if sub := t.Env.Lookup(p.Ty.Ref); sub != nil {
+						for _, c := range sub.Props {
+							if len(c.Path) > 0 && c.Ty.Class == "scalar" {
+								child := c.JSON
+								params = append(params, qparam{name + "." + child, c.Ty, func(v *codecgen.J) *codecgen.J {
+									return codecgen.Obj().Add(name, codecgen.Obj().Add(child, v))
+								}})
+								break
+							}
+						}
+					}
+				}
+			}
+			for _, pr := range params {
+				if tripped() {
+					break
+				}
+				for rep := cfg.Scale(2, 7); rep > 0; rep-- {
+					text := queryText(g.Value(pr.ty, 1))
+					sp := spaced[k%len(spaced)](text)
+					k++
+					q := url.Values{pr.key: {sp}}
+					doc := []byte(pr.wrap(codecgen.Str(sp)).Print(nil))
+					oj, ran := dec(t, doc, "query-space")
+					if !ran {
+						continue
+					}
+					oq, ran := decQ(t, q, "query-space")
+					if !ran {
+						continue
+					}
+					distinct.Add(t.Name + "q:" + q.Encode())
+					res.Count("query-space")
+					res.Count("query-space-outcome:" + oq.Kind)
+					input := map[string]any{"target": t.Env.Root, "query": q.Encode(), "json": short(doc)}
+					label := tyLabel(pr.ty)
+					switch {
+					case oq.Kind == "panic":
+						res.Fail(vh.Failure{Case: em.caseNo, Stream: "query-space", Sig: "C03 QueryToProto panics in " + oq.Site, Clause: "decoding succeeds or is rejected with an error", Input: input, Got: oq.Panic})
+					case oj.Kind == "err" && oq.Kind == "ok":
+						res.Fail(vh.Failure{Case: em.caseNo, Stream: "query-space", Sig: "C03 query value with surrounding white space accepted although the same text is rejected as a JSON string: " + label, Clause: "a member that cannot be represented in its target field is rejected", Input: input, Got: "decoded to " + short([]byte(oq.term())), Want: "error"})
+					case oj.Kind == "ok" && oq.Kind == "err":
+						res.Fail(vh.Failure{Case: em.caseNo, Stream: "query-space", Sig: "C03 query parameter rejected: white space is part of the value of " + label, Clause: "scalar values supplied as URL query parameters produce the same message as the canonical spelling", Input: input, Got: oq.Err})
+					case oj.Kind == "ok" && oq.Kind == "ok" && oq.term() != oj.term():
+						res.Fail(vh.Failure{Case: em.caseNo, Stream: "query-space", Sig: "C03 query parameters decode to a different message than the JSON document: white space around " + label, Clause: "stored with exactly the value it denotes", Input: input, Got: firstDiff(oq.term(), oj.term())})
+					}
+					em.add(queryCase(t, q, oq), "query-space", input, map[string]any{"kind": oq.Kind, "err": oq.Err})
+					em.caseNo++
+				}
+			}
+		}
+	}
+
 	// ---- stream 6: boundary literals per scalar kind, one member per document
 	boundary := map[codecgen.Kind][]*codecgen.J{
 		"KInt32":     {codecgen.Num("1e60000000"), codecgen.Num("0e-2000000000"), codecgen.Str("1e60000000"), codecgen.Num("2147483647"), codecgen.Num("-2147483648"), codecgen.Str("2147483647"), codecgen.Num("2147483648"), codecgen.Str("-2147483649"), codecgen.Num("-0"), codecgen.Num("1e2"), codecgen.Num("1.0"), codecgen.Str("+1"), codecgen.Str(" 1"), codecgen.Str("1 "), codecgen.Str("01"), codecgen.Str("")},
